@@ -220,8 +220,8 @@ TIE_TEXT = {
     "TieDnnf": "the decision-DNNF builder (conjoin_implied, topdown_h, compile_cnf_topdown, cond_helper, both get_or_insert)",
     "TieFfi": "the diagram-building C exports (operation and argument positions), bdd_eq / topvar / low / high",
     "TieSddQ": "SDD queries and the semantic SDD builder",
-    "TieScratch": "the BDD scratch mechanism and memoised folds",
-    "TieCli": "the command-line tools' glue and the remaining C wrappers",
+    "TieScratch": "the BDD scratch mechanism and every memoised traversal (clear_scratch, fold / bdd_fold with both-polarity memo, count_nodes, the default wmc / evaluate / semantic_hash = fold + clear, condition's clean-up) plus a census of direct scratch-API calls per function (40 entries)",
+    "TieCli": "the command-line tools' glue (single_wmc, partial_wmcs, order and weight handling, the two converters' main) and the remaining C wrappers (robdd_model_count, weight tables, polynomial marshalling, CNF / order / dtree / vtree constructors; 37 entries)",
 }
 
 
@@ -309,7 +309,7 @@ PROPS = {
         "explanation": "C13.* + Tie.* theorems; ring stream: implementation vs exact arithmetic, vs the mirrored model, and the laws on the implementation's own outputs.",
     },
     "C07": {
-        "modules": ["RsddModel.Props.C07Bdd", "RsddModel.Props.C07Sdd", "RsddModel.Props.TieSem", "RsddModel.Props.TieFF", "RsddModel.Props.TieOptim"],
+        "modules": ["RsddModel.Props.C07Bdd", "RsddModel.Props.C07Sdd", "RsddModel.Props.TieSem", "RsddModel.Props.TieFF", "RsddModel.Props.TieOptim", "RsddModel.Props.TieScratch"],
         "streams": [WMC_STREAM, HASH_STREAM],
         "rule": "diagrams taken from builder pools (three largest distinct + one random per program), random orders; normalised field weights for a "
                 "random exported prime, arbitrary integer weights 0..5, dyadic real weights; non-trivial = diagram has a node below a node",
@@ -371,7 +371,7 @@ PROPS = {
         "explanation": "C14.* theorems; ord stream: implementation vs spec (set-theoretic definitions, root paths) and vs the mirrored model.",
     },
     "C05": {
-        "modules": ["RsddModel.Props.C05Bdd", "RsddModel.Props.C05Sdd", "RsddModel.Props.C03", "RsddModel.Props.TieCompile", "RsddModel.Props.TieBddCore", "RsddModel.Props.TieBddCoreSource"],
+        "modules": ["RsddModel.Props.C05Bdd", "RsddModel.Props.C05Sdd", "RsddModel.Props.C03", "RsddModel.Props.TieCompile", "RsddModel.Props.TieCompileSource", "RsddModel.Props.TieBddCore", "RsddModel.Props.TieBddCoreSource"],
         "streams": [COMP_STREAM],
         "rule": "CNFs (empty formula, empty/unit clauses, repeated and complementary literals, unused indices), random partial assignments over all "
                 "variables, random expression trees over all seven constructors (depth <= 4), dtree plans for random elimination orders; BDD builder "
@@ -416,7 +416,7 @@ PROPS = {
         "explanation": "C06.* theorems; td stream: implementation vs brute force (models, is_false, once-per-path, all conditionings), vs mirrored compiler on mirrored propagator.",
     },
     "C10": {
-        "modules": ["RsddModel.Props.C10", "RsddModel.Props.C10Sdd"],
+        "modules": ["RsddModel.Props.C10", "RsddModel.Props.C10Sdd", "RsddModel.Props.TieScratch"],
         "streams": [QUERY_STREAM],
         "rule": "a builder program, then 4-14 queries drawn from {count in FiniteField, count in reals, evaluate, count_nodes, semantic_hash, marginal_map, "
                 "smooth, condition} on the five largest distinct diagrams of the pool (they share nodes); each answer is compared with the same query "
@@ -471,7 +471,7 @@ PROPS = {
         "explanation": "C15.* theorems; cnf stream: implementation vs set-theoretic definitions on the raw clauses, vs the mirrored model; hasher states compared pairwise.",
     },
     "C17": {
-        "modules": ["RsddModel.Props.C17", "RsddModel.Props.TieCompile", "RsddModel.Props.TieCnfUp"],
+        "modules": ["RsddModel.Props.C17", "RsddModel.Props.TieCompile", "RsddModel.Props.TieCompileSource", "RsddModel.Props.TieCnfUp"],
         "streams": [SER_STREAM],
         "rule": "generated DIMACS texts (comment lines, header, clauses spanning lines, empty clauses, duplicate literals) through Cnf::from_dimacs, "
                 "to_dimacs and back, and through LogicalExpr::from_dimacs; generated s-expressions over up to 6 named variables (names chosen so that "
@@ -506,7 +506,7 @@ PROPS = {
         "explanation": "C04.* theorems; sdd stream: the clauses of well-formedness evaluated on the implementation's results, equality classes vs functions, model == implementation.",
     },
     "C18": {
-        "modules": ["RsddModel.Props.C18", "RsddModel.Props.TieFfi"],
+        "modules": ["RsddModel.Props.C18", "RsddModel.Props.TieFfi", "RsddModel.Props.TieCli"],
         "streams": [FFI_STREAM],
         "rule": "call sequences over {bdd_true/false, bdd_var, bdd_new_var, bdd_negate, bdd_and, bdd_or, bdd_ite, bdd_compose} on a manager created by "
                 "mk_bdd_manager_default_order, run through the exported C symbols (linked into the harness through extern \"C\" declarations) and "
@@ -526,7 +526,7 @@ PROPS = {
         "explanation": "C18.* theorems; ffi stream: C symbols vs native API vs handle-layer model vs specification.",
     },
     "C19": {
-        "modules": ["RsddModel.Props.C19", "RsddModel.Props.TieCompile", "RsddModel.Props.TieBddCore", "RsddModel.Props.TieBddCoreSource"],
+        "modules": ["RsddModel.Props.C19", "RsddModel.Props.TieCompile", "RsddModel.Props.TieCompileSource", "RsddModel.Props.TieBddCore", "RsddModel.Props.TieBddCoreSource", "RsddModel.Props.TieCli"],
         "streams": [CLI_STREAM],
         "prebuild": CLI_PREBUILD,
         "rule": "the three binaries built from the working tree (feature cli) run on generated files: weighted_model_count on s-expressions over up to 6 "
